@@ -285,6 +285,13 @@ func (nfs *Nfs) NFSPROC3_READ(args nfstypes.READ3args) nfstypes.READ3res {
 }
 
 // XXX Mtime
+// The largest WRITE the server accepts, announced as wtmax.  Besides the
+// data blocks a WRITE dirties the inode block, up to three index blocks, one
+// more data block when it is not block-aligned, and bitmap blocks; leave room
+// for those, so that the transaction fits in the log.
+const wtmaxReserve uint64 = 16
+const wtmax uint64 = (jrnl.LogBlocks - wtmaxReserve) * 4096
+
 func (nfs *Nfs) NFSPROC3_WRITE(args nfstypes.WRITE3args) nfstypes.WRITE3res {
 	defer nfs.recordOp(nfstypes.NFSPROC3_WRITE, time.Now())
 	var reply nfstypes.WRITE3res
@@ -303,7 +310,7 @@ func (nfs *Nfs) NFSPROC3_WRITE(args nfstypes.WRITE3args) nfstypes.WRITE3res {
 		errRet(op, &reply.Status, nfstypes.NFS3ERR_INVAL)
 		return reply
 	}
-	if uint64(args.Count) >= jrnl.LogBytes {
+	if uint64(args.Count) > wtmax {
 		errRet(op, &reply.Status, nfstypes.NFS3ERR_INVAL)
 		return reply
 	}
@@ -870,7 +877,7 @@ func (nfs *Nfs) NFSPROC3_FSINFO(args nfstypes.FSINFO3args) nfstypes.FSINFO3res {
 	reply.Resok.Rtmax = 16 * 4096
 	reply.Resok.Rtmult = 4096
 	reply.Resok.Rtpref = reply.Resok.Rtmax
-	reply.Resok.Wtmax = nfstypes.Uint32(jrnl.LogBytes)
+	reply.Resok.Wtmax = nfstypes.Uint32(wtmax)
 	reply.Resok.Wtpref = 16 * 4096
 	reply.Resok.Wtmult = 4096
 	reply.Resok.Dtpref = 16 * 4096
